@@ -1,6 +1,6 @@
 #!/usr/bin/env python3
 """tools/sweep2md.py <seedsweep.log> > seeded/RESULTS.md"""
-import json, sys, subprocess
+import json, os, sys, subprocess
 from pathlib import Path
 ROOT = Path(__file__).resolve().parent.parent
 rows = []
@@ -17,11 +17,15 @@ for line in open(sys.argv[1]):
         meta = {}
     rows.append((name, rc, wall, kinds, str(meta.get("summary", ""))[:160].replace("|", "/").replace("\n", " ")))
 head = subprocess.check_output(["git", "-C", "/repo", "rev-parse", "--short", "HEAD"]).decode().strip()
-print(f"# Seeded changes vs `./check <ID> quick` (VERIF_SEED=1), /repo HEAD {head}\n")
+print(f"# Seeded changes vs `./check <ID> quick` (VERIF_SEED={os.environ.get('VERIF_SEED', '1')}), /repo HEAD {head}\n")
 print("Produced by `tools/seedsweep.sh` + `tools/sweep2md.py`; exit 1 = VIOLATION reported (the change is caught).\n")
 print("| change | exit | wall | root-cause kinds reported | summary (from the sub-agent's meta.json) |")
 print("|---|---|---|---|---|")
+rows.sort(key=lambda r: (r[0].split("-m")[0], int(r[0].split("-m")[1])))
 for name, rc, wall, kinds, summ in rows:
     print(f"| {name} | {rc} | {wall[5:]} | {', '.join(kinds)} | {summ} |")
 caught = sum(1 for r in rows if r[1] == "1")
-print(f"\n{caught} of {len(rows)} caught.")
+print(f"\n{caught} of {len(rows)} caught"
+      + (f" ({len(list((ROOT / 'seeded').glob('C*-m*')))} changes exist; the sweep was cut short by the time budget, machine shared with other jobs)."
+         if len(rows) < len(list((ROOT / 'seeded').glob('C*-m*'))) else "."))
+print("Not caught by design (DESIGN.md 6.26 / 10.1): C17-m3, C17-m7, C19-m12, C11-m13, C15-m13, C03-m18; C10-m10 and C10-m17 are caught by C14.")
